@@ -183,13 +183,17 @@ def _extra_reads(m, scale):
     out["q_vag"] = lambda: sorted(tuple(sorted(map(int, e))) for e in m.vertex_adjacency_graph.edges())
     out["q_hull_volume"] = lambda: float(m.convex_hull.volume)
     out["q_bbox"] = lambda: np.asarray(m.bounding_box.bounds)
-    try:
-        closed = bool(m.is_watertight)
-    except Exception:
-        closed = False
-    if closed:
-        out["q_contains"] = lambda: m.contains(P)
-        out["q_signed_distance"] = lambda: m.nearest.signed_distance(P)
+    # building this table must not read anything from the mesh (a read verifies the cache and
+    # would heal exactly the stale state the histories are trying to produce), so whether the
+    # mesh is closed is decided inside the thunks
+    def contains():
+        return m.contains(P) if m.is_watertight else "not_closed"
+
+    def signed_distance():
+        return m.nearest.signed_distance(P) if m.is_watertight else "not_closed"
+
+    out["q_contains"] = contains
+    out["q_signed_distance"] = signed_distance
     return out
 
 
@@ -593,6 +597,43 @@ def mutators(rng):
         observe_original(lambda c: c.update_faces(np.arange(len(c.faces)) % 2 == 0)))
     add("copy.copy+mutate_copy_observe_original:inplace", observe_original(lambda c: c.vertices.__imul__(2.0)))
     add("add_self", lambda m, r: m + m.copy().apply_translation([30, 0, 0]))
+
+    # observers: library calls that are NOT mutators.  Whatever they return, the mesh they were
+    # given must afterwards still report what a fresh mesh reports (they share its cache).
+    def obs(name, fn):
+        def f(m, r):
+            try:
+                fn(m, r)
+            except Exception:
+                pass  # a refusal is not what is judged here: the state of the mesh is
+
+        add("observer:" + name, f)
+
+    obs("laplacian_pinned", lambda m, r: trimesh.smoothing.laplacian_calculation(m, equal_weight=False, pinned_vertices=[0, min(3, len(m.vertices) - 1)]))
+    obs("laplacian", lambda m, r: trimesh.smoothing.laplacian_calculation(m, equal_weight=True))
+    obs("filter_laplacian_on_copy", lambda m, r: trimesh.smoothing.filter_laplacian(m.copy(include_cache=True), iterations=2))
+    obs("section", lambda m, r: m.section(plane_origin=m.centroid, plane_normal=[0.3, 0.2, 0.9]))
+    obs("slice_plane", lambda m, r: m.slice_plane(m.centroid, [0.1, 0.9, 0.2]))
+    obs("submesh", lambda m, r: m.submesh([np.arange(max(1, len(m.faces) // 2))], append=True))
+    obs("split", lambda m, r: m.split(only_watertight=False))
+    obs("subdivide", lambda m, r: m.subdivide())
+    obs("subdivide_to_size", lambda m, r: m.subdivide_to_size(max_edge=float(m.scale) / 3.0))
+    obs("sample", lambda m, r: m.sample(20))
+    obs("outline", lambda m, r: m.outline())
+    obs("export_stl", lambda m, r: m.export(file_type="stl"))
+    obs("export_ply", lambda m, r: m.export(file_type="ply"))
+    obs("export_glb", lambda m, r: m.export(file_type="glb"))
+    obs("to_dict", lambda m, r: m.to_dict())
+    obs("convex_hull", lambda m, r: m.convex_hull.volume)
+    obs("bounding_box_oriented", lambda m, r: m.bounding_box_oriented.volume)
+    obs("scene_dump", lambda m, r: m.scene().dump())
+    obs("smoothed", lambda m, r: m.smoothed())
+    obs("voxelized", lambda m, r: m.voxelized(pitch=float(m.scale) / 6.0))
+    obs("simplify", lambda m, r: m.simplify_quadric_decimation(face_count=max(4, len(m.faces) // 2)))
+    obs("register", lambda m, r: m.register(m.vertices[:5] + 0.01))
+    obs("projected", lambda m, r: m.projected([0, 0, 1]))
+    obs("unwrap", lambda m, r: m.unwrap())
+    obs("union_self", lambda m, r: m.union(m.copy().apply_translation([0.1, 0, 0])))
     return muts
 
 
@@ -626,6 +667,8 @@ class Monitor:
         return self.names + sorted(extra), extra, sc
 
     def do_reads(self, m, subset):
+        if not len(subset):
+            return
         sc = scale_of(m)
         extra = _extra_reads(m, sc)
         for n in subset:
@@ -701,6 +744,39 @@ class Monitor:
         return bad
 
 
+class _StepTimeout(BaseException):
+    pass
+
+
+class _step_watchdog:
+    """Wall-clock guard around one library call (main thread only)."""
+
+    def __init__(self, seconds):
+        self.seconds = seconds
+
+    def __enter__(self):
+        import signal
+
+        def on_alarm(signum, frame):
+            raise _StepTimeout()
+
+        try:
+            self._old = signal.signal(signal.SIGALRM, on_alarm)
+            signal.setitimer(signal.ITIMER_REAL, self.seconds)
+            self._armed = True
+        except ValueError:
+            self._armed = False
+        return self
+
+    def __exit__(self, *exc):
+        import signal
+
+        if self._armed:
+            signal.setitimer(signal.ITIMER_REAL, 0)
+            signal.signal(signal.SIGALRM, self._old)
+        return False
+
+
 def run_history(mon, run, mesh_tag, base, steps, seed_for_mut):
     """
     steps: list of (read_subset_names, mutator_name, mutator_fn)
@@ -708,14 +784,22 @@ def run_history(mon, run, mesh_tag, base, steps, seed_for_mut):
     m = base.copy()
     hist = []
     nontrivial = False
-    for reads, mname, mfn in steps:
+    for step in steps:
+        reads, mname, mfn = step[:3]
+        observe = step[3] if len(step) > 3 else True
         mon.do_reads(m, reads)
         keys_at_mutation = frozenset(m._cache.cache.keys())
         run.state("cache_keyset_at_mutation", hash(keys_at_mutation) & 0xFFFFFFFF)
         hist.append({"reads": list(reads) if len(reads) <= 8 else "ALL(%d)" % len(reads), "mutator": mname})
         r = np.random.default_rng(seed_for_mut)
         try:
-            res = mfn(m, r)
+            with _step_watchdog(20.0):
+                res = mfn(m, r)
+        except _StepTimeout:
+            # a library call that does not come back in 20 s is not what this property judges
+            # (compute_stable_poses on an open sheet did that): the history is dropped
+            run.skip("mutator exceeded the 20 s step watchdog: %s" % mname)
+            return
         except Exception as e:
             # a library mutator raising on a valid mesh is not what this property judges
             run.skip("mutator raised %s: %s" % (type(e).__name__, mname))
@@ -726,6 +810,12 @@ def run_history(mon, run, mesh_tag, base, steps, seed_for_mut):
             m = res
         if len(m.faces) == 0 or len(m.vertices) == 0:
             run.count("emptied_by_mutator")
+        if not observe:
+            # a SILENT step: nothing is read between this mutator and the next one, so values
+            # cached before it are still sitting in the cache when the next mutator runs
+            hist[-1]["silent"] = True
+            run.count("silent_steps")
+            continue
         try:
             bad = mon.compare(m, hist, mesh_tag, mname)
         except Exception as e:  # unguarded harness path: never a verdict, keep the history
@@ -744,7 +834,7 @@ def run_history(mon, run, mesh_tag, base, steps, seed_for_mut):
     run.case(
         "hist:%s:len%d" % (mesh_tag, len(steps)),
         mesh_tag,
-        tuple((tuple(s[0]), s[1]) for s in steps),
+        tuple((tuple(s[0]), s[1], (s[3] if len(s) > 3 else True)) for s in steps),
         nontrivial=nontrivial,
         sample={"mesh": mesh_tag, "history": hist} if run.evaluations % 211 == 0 else None,
     )
@@ -770,28 +860,44 @@ def _workload(run, mon):
     names_all, _, _ = mon.read_names(meshes[0][1])
     singles = [[n] for n in names_all]
     idx = 0
-    # (1) read-set in {none, ALL} x every mutator x every mesh
-    for mesh_tag, base in meshes:
-        for mname, mfn in muts:
-            for reads in ([], names_all):
+    # (1) read-set in {none, ALL} x every mutator; quick: meshes round-robin, thorough: every mesh
+    for mi, (mname, mfn) in enumerate(muts):
+        for ri, reads in enumerate(([], names_all)):
+            for si, (mesh_tag, base) in enumerate(meshes):
+                if run.tier == "quick" and si != (mi + ri) % len(meshes):
+                    continue
                 idx += 1
                 if run.mine(idx):
                     run_history(mon, run, mesh_tag, base, [(reads, mname, mfn)], idx)
-        if run.out_of_time(0.35):
+        if run.out_of_time(0.45):
+            run.count("section1_cut_short")
             break
-    # (2) each single value x every mutator (the staleness triples), meshes round-robin
     k = 0
-    order = [(mname, mfn, s) for mname, mfn in muts for s in singles]
-    run.pyrng.shuffle(order)
-    for mname, mfn, s in order:
+    # (2c) an edit with NOTHING read after it, then a mutator that keeps part of the cache: what
+    # was cached before the edit must not be re-validated by the second call
+    silent_first = [n for n, _ in muts if n in (
+        "inplace:v_setitem_late", "inplace:v_imul", "inplace:f_setitem_last", "inplace:f_fliplr_all",
+        "reassign:vertices", "reassign:faces_subset", "density_set")]
+    keepers = [n for n, _ in muts if n.split(":")[0] in (
+        "apply_translation", "invert", "process", "copy", "copy.copy", "fix_normals", "unmerge_vertices",
+        "merge_vertices", "remove_unreferenced_vertices", "rezero", "apply_obb", "convert_units")
+        or n in ("apply_transform:rigid", "apply_transform:mirror_axis", "apply_transform:similarity:0.5",
+                 "apply_transform:shear", "apply_transform:identity", "apply_transform:near_identity:translation:1e-07",
+                 "apply_scale:scalar", "apply_scale:negative", "update_faces:random_bool", "update_faces:all_true",
+                 "update_vertices:referenced_bool", "hole@0.30+fill_holes", "face_normals_set:correct",
+                 "copy:include_cache", "copy.copy+mutate_copy_observe_original:rigid")]
+    spairs = [(a, b) for a in silent_first for b in keepers]
+    run.pyrng.shuffle(spairs)
+    for a, b in spairs:
         idx += 1
         if not run.mine(idx):
             continue
         mesh_tag, base = meshes[k % len(meshes)]
         k += 1
-        run_history(mon, run, mesh_tag, base, [(s, mname, mfn)], idx)
-        if run.out_of_time(0.62 if run.tier == "quick" else 0.5):
-            run.count("singles_cut_short")
+        run_history(mon, run, mesh_tag, base,
+                    [(names_all, a, mut_by_name[a], False), ([], b, mut_by_name[b], True)], idx)
+        if run.out_of_time(0.6):
+            run.count("silent_pairs_cut_short")
             break
     # (2b) ordered pairs A;B: A leaves hidden state behind (cache lock users process / invert /
     # identifier, copies sharing cache entries, transforms that preserve part of the cache),
@@ -821,8 +927,21 @@ def _workload(run, mon):
         k += 1
         mid = between[k % len(between)]
         run_history(mon, run, mesh_tag, base, [(names_all + ["identifier"], a, mut_by_name[a]), (mid, b, mut_by_name[b])], idx)
-        if run.out_of_time(0.9 if run.tier == "quick" else 0.85):
+        if run.out_of_time(0.75):
             run.count("pairs_cut_short")
+            break
+    # (2) each single value x every mutator (the staleness triples), meshes round-robin
+    order = [(mname, mfn, s) for mname, mfn in muts for s in singles]
+    run.pyrng.shuffle(order)
+    for mname, mfn, s in order:
+        idx += 1
+        if not run.mine(idx):
+            continue
+        mesh_tag, base = meshes[k % len(meshes)]
+        k += 1
+        run_history(mon, run, mesh_tag, base, [(s, mname, mfn)], idx)
+        if run.out_of_time(0.9):
+            run.count("singles_cut_short")
             break
     # (3) longer histories with random read subsets
     maxlen = 2 if run.tier == "quick" else 4
@@ -834,7 +953,8 @@ def _workload(run, mon):
             kk = int(run.rng.integers(0, 7))
             reads = list(run.rng.choice(names_all, size=kk, replace=False)) if kk else []
             mname, mfn = muts[int(run.rng.integers(len(muts)))]
-            steps.append((reads, mname, mfn))
+            steps.append((reads, mname, mfn, bool(run.rng.random() < 0.7)))
+        steps[-1] = steps[-1][:3] + (True,)
         run_history(mon, run, mesh_tag, base, steps, idx)
     if mon.probe.hits == 0:
         run.inconclusive("no compared read was ever served from a cache")
@@ -850,7 +970,7 @@ def replay(run, case):
         steps = []
         for h in case["history"]:
             reads = names_all if isinstance(h["reads"], str) else h["reads"]
-            steps.append((reads, h["mutator"], muts[h["mutator"]]))
+            steps.append((reads, h["mutator"], muts[h["mutator"]], not h.get("silent", False)))
         base = meshes.get(case["mesh"]) or list(meshes.values())[0]
         run_history(mon, run, case["mesh"], base, steps, 1)
     finally:
